@@ -8,6 +8,15 @@ import (
 	"verif/harness/hx"
 )
 
+// result code of a callback: 0..3 = (nil|int) x (nil|err); 4*s + {0,2} = shape s+1 (typed nils, pointer, struct, array,
+// string, error-typed result, slice, map) without / with a non-nil err
+func genCode(r *hx.Rng) int {
+	if r.Intn(5) < 2 {
+		return r.Intn(4)
+	}
+	return 4*r.Range(1, 13) + 2*r.Intn(2)
+}
+
 // one generated scenario; class decides the shape
 func genOne(c *hx.Ctx, class string) string {
 	r := c.Rng
@@ -34,9 +43,9 @@ func genOne(c *hx.Ctx, class string) string {
 			kind := ""
 			switch x := r.Intn(20); {
 			case x < 13:
-				kind = fmt.Sprintf("cb%d", r.Intn(4))
+				kind = fmt.Sprintf("cb%d", genCode(r))
 			case x < 15:
-				kind = fmt.Sprintf("cd%d", r.Intn(4))
+				kind = fmt.Sprintf("cd%d", genCode(r))
 			case x < 17:
 				kind = "nil"
 			case x < 19:
